@@ -647,7 +647,8 @@ fn gen_string(t: &mut Tape, g: &Gates) -> Lit {
 fn gen_address(t: &mut Tape, g: &Gates) -> Lit {
     let loc = *t.pick(&['I', 'Q', 'M']);
     let size = if t.ratio(1, 6) && g.want("ADDRESS_NO_SIZE_PREFIX") { None } else { Some(*t.pick(&['X', 'B', 'W', 'D', 'L'])) };
-    let n = 1 + t.below(3);
+    // (IEC table 15 shows %IW2.5.7.1: the hierarchy has as many levels as the configuration says)
+    let n = if t.ratio(1, 5) { 4 + t.below(9) } else { 1 + t.below(3) };
     let mut comps = vec![];
     let mut over = false;
     let mut multi = false;
